@@ -626,7 +626,7 @@ func checkSentinelPreserved(c *Ctx, rule string, pm *policyModel) {
 			}
 		}
 	}
-	c.Check(nIs >= 2, rule, "dispatcher:classification-uses-errors.Is", "", fmt.Sprintf("%d errors.Is(…, ErrPolicyDenied) test(s)", nIs), "the dispatcher no longer classifies denials with errors.Is(err, ErrPolicyDenied)")
+	c.Check(nIs >= 1, rule, "dispatcher:classification-uses-errors.Is", "", fmt.Sprintf("%d errors.Is(…, ErrPolicyDenied) test(s)", nIs), "the dispatcher no longer classifies denials with errors.Is(err, ErrPolicyDenied)")
 	_ = token.NoPos
 }
 
